@@ -412,14 +412,24 @@ def rule_check(R):
         via = [(sw["bb"], fe)]
         if swo is not None and swo["edges"].get("None") is not None:
             via.append((swo["bb"], swo["edges"]["None"]))   # absent deadline = not expired
+        # (what happens *on* the expiry branch -- the teardown itself, possibly the session-level half of it -- is not
+        # "outbound work before the test")
+        te_ = sw["edges"].get(True)
+        steps = [c for c in steps if te_ is None or not code.must_pass([0], [c.bb], via_edges=[(sw["bb"], te_)])[0]]
         okdom = all(code.must_pass([0], [c.bb], via_edges=via)[0] for c in steps) and bool(steps)
         # absent deadline never takes the expiry branch
         te = sw["edges"].get(True)
         okabs = swo is None or swo["edges"].get("None") is None or \
             code.must_pass([swo["edges"]["None"]], [te], via_edges=[(sw["bb"], fe)])[0] or te not in code.reach([swo["edges"]["None"]]) or \
             _none_never_expires(code, swo, sw)
-        latch = [bb for bb, c in code.calls.items() if roles.call_latches(f, c)]
+        latch = roles.latch_blocks(f, code)
         okl = code.must_pass([te], code.returns, via_blocks=latch)[0]
+        if not okl:
+            # the expiry branch may sit in a folded-in helper: follow the feasible paths (the helper's Err is known on them)
+            lset = set(latch)
+            lvs = [lf for lf in paths.explore(code, te, lambda t_: False, lambda b_, x_: x_ in lset, max_paths=400)]
+            rets = [lf for lf in lvs if lf["kind"] == "return"]
+            okl = bool(rets) and all(lf["marked"] for lf in rets) and not any(lf["kind"] == "limit" for lf in lvs)
         vals = [code.rvalue_term(s2["rv"]) for x in code.reach([te], avoid=[fe]) for s2 in code.blocks[x]["stmts"]
                 if s2["k"] == "assign" and s2["dst"]["l"] == 0]
         okv = bool(vals) and all("Disconnected" in show(v) for v in vals)
@@ -726,7 +736,12 @@ def rule_inbound_first(R):
             sj, neg = peel(sj[2]), True
         if is_call(sj, "packet_available") and si["edges"].get(neg) is not None:
             edges.append((bb, si["edges"][neg]))       # the edge on which no complete packet is waiting
-    ok = bool(calls) and bool(edges) and all(code.must_pass([0], [c.bb], via_edges=edges)[0] for c in calls)
+    # ... or behind an unconditional `process_received_packet()` (it takes the packet out of the reader when one is complete;
+    # nothing in the drive loop reads from the transport, so none can arrive in between)
+    prp = cm.get("process_received_packet")
+    pblocks = [c.bb for c in outq.calls_to(f, code, prp[0])] if prp else []
+    ok = bool(calls) and (bool(edges) or bool(pblocks)) and \
+        all(code.must_pass([0], [c.bb], via_edges=edges, via_blocks=pblocks)[0] for c in calls)
     R.ob("check/inbound-before-expiry", ok,
          "Connection::drive_packet calls service() (which tests the PINGRESP deadline first) only when no complete inbound "
          "packet is waiting in the reader (%d calls, %d tests)" % (len(calls), len(edges)), where=b.span)
